@@ -218,9 +218,13 @@ def r2b(repo, run):
                 raise AnalysisError('parse_scalar: loader.resolve(kind, value, implicit) not recognised')
             r = rs[0]
             impl = r.args[2]
-            if impl.elems is None or len(impl.elems) != 2 or any(x.const not in (True, False) for x in impl.elems):
+            if impl.elems is None or len(impl.elems) != 2:
                 raise AnalysisError('parse_scalar: implicit pair %s not evaluable' % impl.text[:40])
-            res.setdefault(style, set()).add((impl.elems[0].const, impl.elems[1].const))
+            try:
+                pair = tuple(bool(tr._ev_const(x.ast, {'node.style': style})) for x in impl.elems)
+            except tr._Unknown:
+                raise AnalysisError('parse_scalar: implicit pair %s not evaluable' % impl.text[:40])
+            res.setdefault(style, set()).add(pair)
             if p.status == 'return' and co and p.ret is not None:
                 R = co[0].result.text
                 if p.ret.text == R:
